@@ -175,11 +175,13 @@ func LoadOfGlobal(v ssa.Value) (*ssa.Global, bool) {
 	return g, ok
 }
 
-// Returns lists the return instructions of f.
+// Returns lists the return instructions of f. The synthetic recover block
+// (f.Recover) is skipped: it runs only after a deferred call recovered from a
+// panic, and rule R01.6 asserts that the module never calls recover().
 func Returns(f *ssa.Function) []*ssa.Return {
 	var out []*ssa.Return
 	for _, b := range f.Blocks {
-		if len(b.Instrs) == 0 {
+		if len(b.Instrs) == 0 || b == f.Recover {
 			continue
 		}
 		if r, ok := b.Instrs[len(b.Instrs)-1].(*ssa.Return); ok {
